@@ -412,6 +412,13 @@ def run(tier='quick', seed=0):
         for k, v in stats.items():
             tot[k] = tot.get(k, 0) + v
     res.samples = list(fams.values())                  # one written-out case per scenario family
+    # a `!=` line together with a non-strict bound on the same variables (shared with C14: rtc/c14.check_ne_coupled): the
+    # relations of the text must all hold on the result
+    from . import c14 as _c14
+    for r in range(2 if tier == 'quick' else 12):
+        for sp in _c14.gen_ne_coupled(seed * 100 + r):
+            seed_all(sp['seed'])
+            _c14.check_ne_coupled(sp, res, {}, 8 if tier == 'quick' else 24, prop='C13')
     res.extra.update(tot)
     res.extra['exhaustive'] = False
     return res.out()
@@ -422,7 +429,10 @@ def replay(inp):
     spec = dict(inp)
     x = [float(v) if isinstance(v, str) else v for v in spec.pop('x', [])]
     seed_all(spec['seed'])
-    if spec['family'] == 'boundsconstrain':
+    if spec['family'] == 'ne-coupled':
+        from . import c14 as _c14
+        _c14.check_ne_coupled(dict(inp), res, {}, 24, prop='C13')
+    elif spec['family'] == 'boundsconstrain':
         check_box(spec, res, stats, 1, x)
     elif spec['family'] == 'interleaved':
         check_chain(spec['chain'], res, stats, 1, only=(spec['target'], x))
